@@ -65,6 +65,9 @@ def install_call_variants(mod):
                 b = bytearray(b)
             elif h % 3 == 2:
                 b = memoryview(bytes(b))
+            if h % 5 == 2 and not a and set(k) <= {'encoding', 'iso_config', 'hex_bitmap'}:
+                # the documented parameter order, by position: loads(b, encoding, iso_config, hex_bitmap)
+                return real_loads(b, k.get('encoding'), k.get('iso_config'), k.get('hex_bitmap', False))
         return real_loads(b, *a, **k)
 
     def dumps(m, *a, **k):
@@ -78,6 +81,9 @@ def install_call_variants(mod):
                     real_dumps(bad, *a, **k)
                 except Exception:
                     pass
+            if h % 5 == 2 and not a and set(k) <= {'encoding', 'iso_config', 'hex_bitmap'}:
+                # dumps(obj, encoding, iso_config, hex_bitmap) by position
+                return real_dumps(m, k.get('encoding'), k.get('iso_config'), k.get('hex_bitmap', False))
         return real_dumps(m, *a, **k)
     iso8583.loads, iso8583.dumps = loads, dumps
 
